@@ -74,6 +74,10 @@ def decorate(atoms: Atoms, decos) -> None:
         elif d.startswith("fix:"):
             idx = [int(x) for x in d[4:].split(",")]
             atoms.set_constraint([*atoms.constraints, FixAtoms(indices=idx)])
+        elif d == "strain":  # the user pre-strains the box
+            atoms.set_cell(atoms.cell.array * 1.03, scale_atoms=True)
+        elif d == "shift":  # the user moves the atoms
+            atoms.positions = atoms.positions + 0.05 * np.cos(np.arange(3 * n).reshape(n, 3) * 0.9 + 0.2)
         elif d == "fixcom":
             atoms.set_constraint([*atoms.constraints, FixCom()])
         else:
